@@ -154,4 +154,7 @@ func TestVerifReplay_Refuse(t *testing.T) {
 		}
 	}
 	t.Logf("driver: %d addresses, none breaks the floor", n)
+	if sp := os.Getenv("VERIF_REPLAY_STATS"); sp != "" {
+		os.WriteFile(sp, []byte(fmt.Sprintf(`{"cases": %d}`, n)), 0o644)
+	}
 }
